@@ -660,4 +660,74 @@ example : prepareOffsetTable 2 [97, 10, 98, 99, 10, 10, 100, 10, 101] = ([(2, 5)
     ((skipLines none [97, 10, 98, 99, 10, 10, 100, 10, 101] 3).readlines 5).1 = [[100, 10], [101]] := by
   decide +kernel
 
+/-! ## the track specification: corpus-level defaults and document-level settings (`_create_corpora`) -/
+
+/-- **spec_most_specific_wins**: whatever `_create_corpora` makes of a document set, the set keeps its file and its
+    document count, and it is read with action-and-meta-data lines exactly when the MOST SPECIFIC declaration says so:
+    the document set's own "includes-action-and-meta-data" when the key is there (also an explicit `false` under a
+    corpus that says `true`), else the corpus-level one, else not. -/
+theorem spec_most_specific_wins (indices streams : List Nat) (c : CorpusSpec α) (d : DocSpec α) (x : DocSet α)
+    (h : resolveDoc indices streams c d = some x) :
+    x.lines = d.lines ∧ x.numDocs = d.numDocs ∧
+      x.withMeta = (match d.withMeta with
+                    | some b => b
+                    | none => match c.withMeta with
+                      | some b => b
+                      | none => false) := by
+  obtain ⟨h1, h2, h3⟩ := resolveDoc_spec h
+  refine ⟨h1, h2, ?_⟩
+  rw [h3]
+  unfold DocSpec.declared rDefault
+  cases d.withMeta <;> cases c.withMeta <;> rfl
+
+/-- an explicit `false` on the document set overrides a corpus that says `true` (and the other way round) -/
+example : resolveDoc [7] [] ⟨some true, none, none, []⟩ (⟨[10, 11, 12], 3, some false, none, none⟩ : DocSpec Nat)
+    = some ⟨[10, 11, 12], 3, false, false⟩ := rfl
+example : resolveDoc [7] [] ⟨some false, none, none, []⟩ (⟨[10, 11, 12, 13], 2, some true, none, none⟩ : DocSpec Nat)
+    = some ⟨[10, 11, 12, 13], 2, true, false⟩ := rfl
+example : resolveDoc [] [5, 6] ⟨none, none, some 6, []⟩ (⟨[10], 1, none, none, none⟩ : DocSpec Nat) = some ⟨[10], 1, false, true⟩ := rfl
+example : resolveDoc [1, 2] [] ⟨none, none, none, []⟩ (⟨[10], 1, none, none, none⟩ : DocSpec Nat) = none := by decide
+
+/-- **spec_cover**: exactly-once from the track FILE on.  For every track specification that `_create_corpora` accepts,
+    whose data files are as their most specific declaration says, every cutting of the clients into worker ranges, every
+    oracle and every call order per worker: the file lines of all bulks of all workers are a permutation of all lines of
+    all document sets the specification lists. -/
+theorem spec_cover {cfg : Cfg} (hl : cfg.looped = false) (hpct : cfg.pct = 100)
+    (hbulk : 0 < cfg.bulkSize) (hbatch : 0 < cfg.batchSize) {n : Nat} (hn : 1 ≤ n)
+    {indices streams : List Nat} {specs : List (CorpusSpec α)} (hfiles : ∀ c ∈ specs, ∀ d ∈ c.documents, DocSpec.WF c d)
+    {corpora : List (Corpus α)} (hres : resolveCorpora indices streams specs = some corpora)
+    {ranges : List (Nat × Nat)} (hcut : Cut 0 n ranges)
+    (O : Nat × Nat → Oracle) (clients calls stopped : Nat × Nat → List Nat) (p0 p' : Nat × Nat → PState α)
+    (out : Nat × Nat → List (Nat × Bulk α)) (all : Nat × Nat → List (Bulk α)) (c1 : Nat × Nat → Cnt)
+    (hw : ∀ r ∈ ranges, OracleOK (O r) ∧ listMin (clients r) = some r.1 ∧ listMax (clients r) = some r.2 ∧
+      workerBulks (O r) cfg corpora n r.1 r.2 ⟨0, 0, 0, 0⟩ = .ok (all r, c1 r) ∧ (all r).length * 100 < 2^53 ∧
+      partitionAll n (clients r) (PState.init : PState α) = .ok (p0 r) ∧
+      runCalls (O r) cfg corpora (calls r) (p0 r) [] = .ok (out r, stopped r, p' r) ∧ stopped r ≠ []) :
+    (ranges.flatMap fun r => ((out r).map (·.2)).flatMap fun b => srcLines b.body).Perm
+      (specs.flatMap fun c => c.documents.flatMap (·.lines)) := by
+  obtain ⟨hwf, hlines⟩ := resolveCorpora_spec hres hfiles
+  rw [← hlines]
+  exact race_cover hl hpct hbulk hbatch hn hwf hcut O clients calls stopped p0 p' out all c1 hw
+
+/-- a specification with a corpus-level `true` and a document set that says `false`: accepted, files as declared -/
+def specs0 : List (CorpusSpec Nat) :=
+  [⟨some true, none, none, [⟨[0, 1, 2, 3, 4], 5, some false, none, none⟩, ⟨[10, 11, 12, 13], 2, none, none, none⟩]⟩]
+
+example : resolveCorpora [7] [] specs0 = some [[⟨[0, 1, 2, 3, 4], 5, false, false⟩, ⟨[10, 11, 12, 13], 2, true, false⟩]] := rfl
+example : ∀ c ∈ specs0, ∀ d ∈ c.documents, DocSpec.WF c d := by
+  intro c hc d hd
+  simp only [specs0, List.mem_singleton] at hc
+  subst hc
+  simp only [List.mem_cons, List.not_mem_nil, or_false] at hd
+  rcases hd with rfl | rfl <;> exact ⟨by norm_num, by decide⟩
+
+/-- **spec_truthiness_join_misreads**: the rule matters.  Joining the two levels by truthiness (`document value or corpus
+    default`, NOT the code) turns the explicit `false` of `specs0` into `true`; a worker that serves clients 1..1 of 2
+    then computes two lines per document: it starts at line 4 instead of line 2 of the five-document file and
+    hands out one line where the rule gives three. -/
+theorem spec_truthiness_join_misreads :
+    (∃ (c : CorpusSpec Nat) (d : DocSpec Nat), d.withMeta = some false ∧ DocSpec.declared c d = false ∧ DocSpec.declaredOr c d = true) ∧
+    bounds 5 1 1 2 false = (2, 3, 3) ∧ bounds 5 1 1 2 true = (4, 3, 6) := by
+  refine ⟨⟨⟨some true, none, none, []⟩, ⟨[], 0, some false, none, none⟩, rfl, rfl, rfl⟩, ?_, ?_⟩ <;> decide +kernel
+
 end C03
